@@ -20,6 +20,11 @@ def _diag_key(d, mode):
     if d.message.startswith(OVERFLOW_MSGS) and mode == 'D':
         return {'fn': d.fn, 'kind': 'overflow', 'clause': None, 'expr': d.expr}
     if d.message.startswith('precondition not satisfied'):
+        if mode == 'D' and (d.callee_clause or '').startswith('std:') and 'std_specs/ops.rs' in (d.callee_clause or ''):
+            # x.add(y) / x.sub(y) / ... on machine integers (method form of the operator): vstd states the
+            # no-overflow condition as the precondition of core::ops::Add::add etc. - the same implicit panic
+            # site as `x + y`
+            return {'fn': d.fn, 'kind': 'overflow', 'clause': None, 'expr': d.expr}
         return {'fn': d.fn, 'kind': 'precondition', 'clause': d.callee_clause, 'expr': d.expr}
     return {'fn': d.fn, 'kind': d.message.split(':')[0], 'clause': d.clause, 'expr': d.expr}
 
